@@ -3,6 +3,7 @@ package props
 import (
 	"fmt"
 	"go/token"
+	"go/types"
 	"os"
 	"sort"
 	"strings"
@@ -69,6 +70,7 @@ type c14Emit struct {
 	val   string
 	guard []string // boolean conditions (paths) dominating the site with their truth: "+cond" / "-cond"
 	dec   []string // those taken per element: their branch lies strictly inside the outermost loop around the site
+	hdr   *ssa.BasicBlock // header of that loop (nil when the site is in no loop)
 	loop  bool
 }
 
@@ -104,6 +106,7 @@ func c14Emits(p *core.Program, fn *ssa.Function) []c14Emit {
 		sort.Strings(gs)
 		return gs
 	}
+	var lastHdr *ssa.BasicBlock
 	decisions := func(b *ssa.BasicBlock) []string {
 		// header of the outermost natural loop whose header dominates b
 		// candidate loops: header dominates b. Start from the innermost one (the
@@ -135,6 +138,7 @@ func c14Emits(p *core.Program, fn *ssa.Function) []c14Emit {
 				}
 			}
 		}
+		lastHdr = hdr
 		var ds []string
 		for _, g := range path.Guards(fn, b) {
 			ib := g.If.Block()
@@ -170,13 +174,19 @@ func c14Emits(p *core.Program, fn *ssa.Function) []c14Emit {
 	for _, in := range path.Instrs(fn) {
 		switch x := in.(type) {
 		case *ssa.MapUpdate:
-			out = append(out, c14Emit{"mapupdate", in, pc.path(x.Key), pc.path(x.Value), guards(in.Block()), decisions(in.Block()), path.InCycle(in.Block())})
+			{
+				d := decisions(in.Block())
+				out = append(out, c14Emit{"mapupdate", in, pc.path(x.Key), pc.path(x.Value), guards(in.Block()), d, lastHdr, path.InCycle(in.Block())})
+			}
 		case *ssa.Store:
 			if ia, ok := x.Addr.(*ssa.IndexAddr); ok {
 				if _, isAl := ia.X.(*ssa.Alloc); isAl {
 					continue // literal / varargs array
 				}
-				out = append(out, c14Emit{"store", in, pc.path(ia.Index), pc.path(x.Val), guards(in.Block()), decisions(in.Block()), path.InCycle(in.Block())})
+				{
+				d := decisions(in.Block())
+				out = append(out, c14Emit{"store", in, pc.path(ia.Index), pc.path(x.Val), guards(in.Block()), d, lastHdr, path.InCycle(in.Block())})
+			}
 			}
 		case *ssa.Call:
 			if b, ok := x.Call.Value.(*ssa.Builtin); ok {
@@ -187,9 +197,15 @@ func c14Emits(p *core.Program, fn *ssa.Function) []c14Emit {
 					if ok {
 						val = pc.path(v)
 					}
-					out = append(out, c14Emit{"append", in, pc.path(x.Call.Args[0]), val, guards(in.Block()), decisions(in.Block()), path.InCycle(in.Block())})
+					{
+				d := decisions(in.Block())
+				out = append(out, c14Emit{"append", in, pc.path(x.Call.Args[0]), val, guards(in.Block()), d, lastHdr, path.InCycle(in.Block())})
+			}
 				case "delete":
-					out = append(out, c14Emit{"delete", in, pc.path(x.Call.Args[1]), pc.path(x.Call.Args[0]), guards(in.Block()), decisions(in.Block()), path.InCycle(in.Block())})
+					{
+				d := decisions(in.Block())
+				out = append(out, c14Emit{"delete", in, pc.path(x.Call.Args[1]), pc.path(x.Call.Args[0]), guards(in.Block()), d, lastHdr, path.InCycle(in.Block())})
+			}
 				}
 			}
 		}
@@ -309,6 +325,8 @@ func runC14(p *core.Program, r *core.Report) {
 				c.ob("PV3", name, "emitted inside the scan", p.InstrPos(e.in), e.loop, "the emission is outside the loop over the input")
 			}
 		}
+		// the function returns only after its scan(s): no side path that produces the result differently
+		c14ReturnsAfterScan(c, fn, name, ems)
 		// no further emitting sites
 		for i, e0 := range ems {
 			if used[i] {
@@ -752,4 +770,40 @@ func loopDepth(fn *ssa.Function, b *ssa.BasicBlock) int {
 		}
 	}
 	return n
+}
+
+// c14ReturnsAfterScan: every return of fn is dominated by the header of a scan that
+// feeds the result, or is a rejection (non-nil error result / the block panics).
+func c14ReturnsAfterScan(c rc, fn *ssa.Function, name string, ems []c14Emit) {
+	var hdrs []*ssa.BasicBlock
+	for _, e := range ems {
+		if e.hdr != nil {
+			hdrs = append(hdrs, e.hdr)
+		}
+	}
+	if len(hdrs) == 0 {
+		return
+	}
+	for _, b := range fn.Blocks {
+		rt, ok := b.Instrs[len(b.Instrs)-1].(*ssa.Return)
+		if !ok {
+			continue
+		}
+		after := false
+		for _, h := range hdrs {
+			if h.Dominates(b) && !path.NaturalLoop(h)[b] {
+				after = true
+			}
+		}
+		rejection := false
+		for _, rv := range rt.Results {
+			if types.Identical(rv.Type(), types.Universe.Lookup("error").Type()) && !path.IsNil(rv) {
+				if _, isConstNil := rv.(*ssa.Const); !isConstNil {
+					rejection = true
+				}
+			}
+		}
+		// an early exit with the zero/empty result for an empty input is a rejection too when nothing was emitted before it
+		c.ob("PT5", name, "returns only after the scan", c.p.InstrPos(rt), after || rejection, "a return is reachable that is neither behind the scan over the input nor an error return: some inputs take a side path that builds the result differently")
+	}
 }
